@@ -350,7 +350,7 @@ func bigVarint(b []byte) bool {
 }
 
 func exec(c *vm.Ctx, e *entry, in []byte, origin string) (err error, panicked bool) {
-	if origin != "valid" && bigVarint(in) {
+	if origin != "valid" && !strings.HasPrefix(origin, "sizes:") && bigVarint(in) {
 		c.Cover("skipped.declares-more-than-2^24")
 		return errors.New("skipped"), false
 	}
@@ -487,6 +487,159 @@ func fuzzEntry(c *vm.Ctx, r *vm.Rand, e *entry) {
 	}
 	c.Cover("mut.random")
 	c.Cover("decoder." + e.name)
+}
+
+// hugeArrays: arrays whose declared element count is astronomically larger than the input.
+func hugeArrays(c *vm.Ctx) {
+	type tc struct {
+		name string
+		in   []byte
+		run  func(in []byte) error
+	}
+	var cases []tc
+	for _, n := range []int32{1<<31 - 1, 1 << 30, 1 << 28, 1 << 24} {
+		pre := refwire.EncVarInt(n)
+		cases = append(cases,
+			tc{"Ary[VarInt]ofString", append(append([]byte{}, pre...), 1, 'a'), func(in []byte) error { var v []pk.String; _, err := pk.Array(&v).ReadFrom(rd(in)); return err }},
+			tc{"Ary[VarInt]ofByteArray", append(append([]byte{}, pre...), 1, 7), func(in []byte) error { var v []pk.ByteArray; _, err := pk.Array(&v).ReadFrom(rd(in)); return err }},
+			tc{"Ary[VarInt]ofBlockEntity", append(append([]byte{}, pre...), 1, 0, 0, 0), func(in []byte) error {
+				var v []level.BlockEntity
+				_, err := pk.Array(&v).ReadFrom(rd(in))
+				return err
+			}},
+			tc{"Ary[VarInt]ofProperty", append(append([]byte{}, pre...), 1, 'n', 1, 'v', 0), func(in []byte) error {
+				var v []user.Property
+				_, err := pk.Array(&v).ReadFrom(rd(in))
+				return err
+			}},
+			tc{"Ary[Int]ofLong", []byte{byte(n >> 24), byte(n >> 16), byte(n >> 8), byte(n), 0, 0, 0, 0, 0, 0, 0, 1}, func(in []byte) error {
+				var v []pk.Long
+				_, err := pk.Ary[pk.Int]{Ary: &v}.ReadFrom(rd(in))
+				return err
+			}},
+			tc{"chat.Message(extra list count)", append([]byte{0x0a, 0x09, 0, 5, 'e', 'x', 't', 'r', 'a', 0x0a, byte(n >> 24), byte(n >> 16), byte(n >> 8), byte(n)}, 0, 0), func(in []byte) error {
+				var m chat.Message
+				_, err := m.ReadFrom(rd(in))
+				return err
+			}},
+		)
+	}
+	for _, t := range cases {
+		e := entry{name: "huge-count/" + t.name, run: t.run}
+		c.Inflight(e.name + " " + vm.Hex(t.in))
+		var err error
+		if c.Guard("decode", func() any { return map[string]any{"decoder": e.name, "input_hex": vm.Hex(t.in)} }, func() { err = t.run(t.in) }) {
+			continue
+		}
+		c.Eval(vm.Hash64([]byte(e.name), t.in), true)
+		if err == nil {
+			c.Violation("decode/huge-count-accepted/"+t.name, "an array declaring far more elements than the input holds decoded without error", map[string]any{"decoder": t.name, "input_hex": vm.Hex(t.in)})
+		} else {
+			c.Cover("huge-count.rejected")
+		}
+	}
+}
+
+// ---- self-consistent encodings whose sizes disagree with the receiver's state
+
+func longArray(n int, fill int64) *refnbt.Value {
+	v := &refnbt.Value{Tag: refnbt.LongArray, Longs: make([]int64, n)}
+	for i := range v.Longs {
+		v.Longs[i] = fill
+	}
+	return v
+}
+
+// inconsistentSizes builds chunk bodies and paletted containers that parse cleanly as streams (every declared
+// length is followed by exactly that much data) but whose sizes do not fit the receiving object: height maps of
+// 0, 1, expected-1, expected+1 longs or for another section count, present/absent/duplicated; data arrays of 0, 1,
+// expected-1, expected+1 longs. The decoders must return a value or an error.
+func inconsistentSizes(c *vm.Ctx, r *vm.Rand) {
+	secs := []int{1, 4, 24}[r.Intn(3)]
+	var body bytes.Buffer
+	ch := buildChunk(r, secs)
+	ch.WriteTo(&body)
+	_, _, hmEnd, perr := refnbt.Parse(body.Bytes(), true)
+	if perr != nil {
+		c.Inconclusive("cannot locate the height-map NBT in a chunk the library wrote")
+		return
+	}
+	rest := body.Bytes()[hmEnd:]
+	bitsFor := func(s int) int {
+		b := 0
+		for v := uint(s)*16 + 1; v != 0; v >>= 1 {
+			b++
+		}
+		return b
+	}
+	expected := (256 + 64/bitsFor(secs) - 1) / (64 / bitsFor(secs))
+	lens := []int{0, 1, expected - 1, expected, expected + 1, 37, 52}
+	for _, lm := range lens {
+		for _, lw := range []int{-1, 0, expected, lm} { // -1 = key absent
+			comp := &refnbt.Value{Tag: refnbt.Compound}
+			comp.Comp = append(comp.Comp, refnbt.Entry{Name: "MOTION_BLOCKING", V: longArray(lm, 0)})
+			if lw >= 0 {
+				comp.Comp = append(comp.Comp, refnbt.Entry{Name: "WORLD_SURFACE", V: longArray(lw, 1)})
+			}
+			if r.Intn(6) == 0 {
+				comp.Comp = append(comp.Comp, refnbt.Entry{Name: "OCEAN_FLOOR", V: longArray(3, 0)})
+			}
+			in := append(refnbt.Encode(comp, "", true), rest...)
+			e := entry{name: fmt.Sprintf("Chunk.ReadFrom(%d sections, consistent height maps of other sizes)", secs), run: func(in []byte) error {
+				_, err := level.EmptyChunk(secs).ReadFrom(rd(in))
+				return err
+			}}
+			err, pan := exec(c, &e, in, fmt.Sprintf("sizes: heightmaps=%d/%d longs (expected %d)", lm, lw, expected))
+			if !pan {
+				if err != nil {
+					c.Cover("sizes.heightmap.error")
+				} else {
+					c.Cover("sizes.heightmap.accepted")
+				}
+			}
+		}
+	}
+	c.EvalN(1, vm.Hash64(body.Bytes()[:min(body.Len(), 128)], []byte("sizes")), true)
+	// paletted containers with a data array of another (self-consistent) size
+	for _, blocks := range []bool{true, false} {
+		length, k := 4096, refwire.PalKind{Blocks: true, RegistrySize: len(block.StateList)}
+		if !blocks {
+			length, k = 64, refwire.PalKind{Blocks: false, RegistrySize: 63}
+		}
+		vals := make([]int, length)
+		nv := []int{1, 2, 5, 8}[r.Intn(4)]
+		for i := range vals {
+			vals[i] = r.Intn(nv)
+		}
+		w := refwire.WritePaletted(vals, k)
+		_, _, info, _ := refwire.ReadPaletted(w, length, k)
+		// find the data array (last field): header = everything before it
+		per := 1
+		if info.Width > 0 {
+			per = 64 / info.Width
+		}
+		nl := 0
+		if info.Width > 0 {
+			nl = (length + per - 1) / per
+		}
+		hdr := w[:len(w)-nl*8-len(refwire.EncVarInt(int32(nl)))]
+		for _, n := range []int{0, 1, nl - 1, nl + 1, 2 * nl} {
+			if n < 0 {
+				continue
+			}
+			in := append(append([]byte{}, hdr...), refwire.EncVarInt(int32(n))...)
+			in = append(in, make([]byte, n*8)...)
+			name := "PaletteContainer[biomes].ReadFrom(data array of another size)"
+			run := func(in []byte) error { _, err := level.NewBiomesPaletteContainer(64, 0).ReadFrom(rd(in)); return err }
+			if blocks {
+				name = "PaletteContainer[blocks].ReadFrom(data array of another size)"
+				run = func(in []byte) error { _, err := level.NewStatesPaletteContainer(4096, 0).ReadFrom(rd(in)); return err }
+			}
+			e := entry{name: name, run: run}
+			exec(c, &e, in, fmt.Sprintf("sizes: data-array=%d longs (expected %d, width %d)", n, nl, info.Width))
+		}
+	}
+	c.Cover("sizes.palette-data-array")
 }
 
 // ---- command dispatcher
@@ -709,13 +862,18 @@ func hostileServer(c *vm.Ctx, r *vm.Rand) {
 	c.Eval(vm.HashStr("live-bot", fmt.Sprint(wit())), true)
 }
 
+type pingHandler struct {
+	*server.PlayerList
+	*server.PingInfo
+}
+
 type nullGame struct{}
 
 func (nullGame) AcceptPlayer(string, [16]byte, *user.PublicKey, []user.Property, int32, *mcnet.Conn) {}
 
 // hostileClient sends mutated handshake / login-start packets to the real server gate.
 func hostileClient(c *vm.Ctx, r *vm.Rand) {
-	srv := &server.Server{ListPingHandler: nil, LoginHandler: &server.MojangLoginHandler{Threshold: []int{-1, 0, 64}[r.Intn(3)]}, ConfigHandler: &server.Configurations{Registries: registry.NewNetworkCodec()}}
+	srv := &server.Server{ListPingHandler: pingHandler{server.NewPlayerList(5), server.NewPingInfo("x", 767, chat.Text("m"), nil)}, LoginHandler: &server.MojangLoginHandler{Threshold: []int{-1, 0, 64}[r.Intn(3)]}, ConfigHandler: &server.Configurations{Registries: registry.NewNetworkCodec()}}
 	var script [][]byte
 	hs := wbuf(pk.VarInt(0), pk.VarInt(767), pk.String("host"), pk.UnsignedShort(25565), pk.VarInt(2))
 	ls := wbuf(pk.VarInt(0), pk.String("player"), pk.UUID{})
@@ -794,6 +952,14 @@ func run(c *vm.Ctx) {
 			v, _ := es[3].gen(r)
 			c.Sample("decoder-input", map[string]any{"decoder": es[3].name, "valid_hex": vm.Hex(v)})
 		}
+	}
+	// huge declared element counts (Ary with any prefix type, arrays inside chunks): an error, promptly
+	if c.Shard == 0 {
+		hugeArrays(c)
+	}
+	sr := c.Rand("sizes")
+	for i := 0; i < c.Scale(400, 8000); i++ {
+		inconsistentSizes(c, sr)
 	}
 	cr := c.Rand("commands")
 	for i := 0; i < c.Scale(40, 800); i++ {
